@@ -178,6 +178,17 @@ type fnet struct {
 
 	heldGate *lib.Gate
 	heldDone chan error
+
+	hsend     int // 0: handlers only read their router; 1: handler 0 also sends; 2: ... through a goroutine
+	abandoned bool
+	reent     chan reentReq
+}
+
+// reentReq is handed by a handler over an unbuffered channel to a goroutine that sends.
+type reentReq struct {
+	si   *network.ServerIdentity
+	id   int
+	done chan struct{}
 }
 
 func (n *fnet) peerIndexLocked(id network.ServerIdentityID) int {
@@ -204,7 +215,7 @@ func kp(i int) *key.Pair {
 	return keyCache[i]
 }
 
-func newFnet(tcp bool, np, nh int) *fnet {
+func newFnet(tcp bool, np, nh int, hsend ...int) *fnet {
 	n := &fnet{tcp: tcp, done: make(chan struct{}), armed: -1, blocked: -1, lastErrCon: -1,
 		msgConn: map[int]int{}, blockedHit: make(chan struct{}, 4), release: make(chan struct{})}
 	n.self = network.NewServerIdentity(kp(0).Public, network.NewLocalAddress("127.0.0.1:3000"))
@@ -214,6 +225,21 @@ func newFnet(tcp bool, np, nh int) *fnet {
 		n.up = append(n.up, true)
 		n.inc = append(n.inc, 0)
 	}
+	if len(hsend) > 0 {
+		n.hsend = hsend[0]
+	}
+	n.reent = make(chan reentReq)
+	go func() {
+		for {
+			select {
+			case rq := <-n.reent:
+				n.S.Send(rq.si, &TMsg{ID: rq.id})
+				close(rq.done)
+			case <-n.done:
+				return
+			}
+		}
+	}()
 	n.host = &fhost{n: n, quit: make(chan struct{})}
 	n.S = network.NewRouter(n.self, n.host)
 	n.S.UnauthOk = true
@@ -245,6 +271,7 @@ func (n *fnet) onHandler(h int, si *network.ServerIdentity) {
 		return
 	}
 	n.calls = append(n.calls, [2]int{h, n.peerIndexLocked(si.GetID())})
+	ncalls := len(n.calls)
 	block := n.armed == h
 	var rel chan struct{}
 	if block {
@@ -253,9 +280,29 @@ func (n *fnet) onHandler(h int, si *network.ServerIdentity) {
 		rel = n.release
 	}
 	n.mu.Unlock()
+	reentrant(n.S, si, h, n.hsend, ncalls, n.reent)
 	if block {
 		n.blockedHit <- struct{}{}
 		<-rel
+	}
+}
+
+// reentrant is what every error handler of the harness does with its OWN router: a handler is
+// application code and may use the router it is registered on.
+func reentrant(r *network.Router, si *network.ServerIdentity, h, mode, id int, ch chan reentReq) {
+	_ = r.Closed()
+	_ = r.Tx()
+	_ = r.Rx()
+	if h != 0 {
+		return
+	}
+	switch mode {
+	case 1:
+		r.Send(si, &TMsg{ID: id})
+	case 2:
+		rq := reentReq{si, id, make(chan struct{})}
+		ch <- rq
+		<-rq.done
 	}
 }
 
@@ -300,7 +347,7 @@ func errOfClass(e string) error {
 	return xerrors.Errorf("receiving: %w", xerrors.Errorf("buffer read: %w", base))
 }
 
-const opDeadline = 10 * time.Second
+const opDeadline = 5 * time.Second
 
 type opj struct {
 	K      string `json:"k"`
@@ -573,15 +620,28 @@ func (n *fnet) exec(o opj) (int, bool, bool) {
 func (n *fnet) snapshot(res int, skip, timeout bool) (string, map[string]interface{}) {
 	tabs := make([]string, len(n.peers))
 	tabsH := make([][]int, len(n.peers))
-	for p, si := range n.peers {
-		ids := []int{}
-		for _, c := range n.S.VerifConnList(si.GetID()) {
-			if fc, ok := c.(*fconn); ok {
-				ids = append(ids, fc.id)
+	for p := range n.peers {
+		tabs[p], tabsH[p] = "[]", []int{}
+	}
+	got := make(chan struct{})
+	go func() {
+		defer close(got)
+		for p, si := range n.peers {
+			ids := []int{}
+			for _, c := range n.S.VerifConnList(si.GetID()) {
+				if fc, ok := c.(*fconn); ok {
+					ids = append(ids, fc.id)
+				}
 			}
+			tabs[p] = lib.NatList(ids)
+			tabsH[p] = ids
 		}
-		tabs[p] = lib.NatList(ids)
-		tabsH[p] = ids
+	}()
+	select {
+	case <-got:
+	case <-time.After(opDeadline):
+		timeout = true // even reading the table blocks
+		<-time.After(time.Millisecond)
 	}
 	n.mu.Lock()
 	calls := append([][2]int(nil), n.calls...)
@@ -610,6 +670,16 @@ func (n *fnet) snapshot(res int, skip, timeout bool) (string, map[string]interfa
 }
 
 func (n *fnet) cleanup() {
+	if n.abandoned {
+		// an operation did not return: the router is wedged; leave its goroutines behind
+		n.mu.Lock()
+		n.finished = true
+		n.mu.Unlock()
+		n.sched.ReleaseAll()
+		close(n.done)
+		network.SetVerifHook(func(string, ...interface{}) {})
+		return
+	}
 	n.mu.Lock()
 	n.finished = true
 	rel := n.release
@@ -658,6 +728,9 @@ func classOfScript(in input) string {
 	if kinds["abandoneddial"] {
 		cl += "-abandoned"
 	}
+	if in.HSend > 0 {
+		cl += "-handlersends"
+	}
 	if in.Label != "" {
 		cl += ":" + in.Label
 	}
@@ -665,7 +738,7 @@ func classOfScript(in input) string {
 }
 
 func runScript(in input) lib.Case {
-	n := newFnet(in.TCP, in.NP, in.NH)
+	n := newFnet(in.TCP, in.NP, in.NH, in.HSend)
 	defer n.cleanup()
 	var ops, snaps []string
 	var hobs []map[string]interface{}
@@ -683,8 +756,13 @@ func runScript(in input) lib.Case {
 		if res == 2 {
 			errs++
 		}
+		if to {
+			// "did not return" is the observation; nothing more can be learnt from a wedged router
+			n.abandoned = true
+			break
+		}
 	}
-	coq := fmt.Sprintf("CScript %s %d %d %s %s", lib.Bool(in.TCP), in.NP, in.NH, lib.List(ops), lib.List(snaps))
+	coq := fmt.Sprintf("CScript %s %s %d %d %s %s", lib.Bool(in.TCP), lib.Bool(in.HSend > 0), in.NP, in.NH, lib.List(ops), lib.List(snaps))
 	if len(hobs) > 12 {
 		hobs = hobs[len(hobs)-12:]
 	}
